@@ -37,6 +37,7 @@ type fakeLink struct {
 	mtx           sync.Mutex
 	closed        bool
 	closeCh       chan struct{}
+	opens         int
 }
 
 func newFakeLink(id int, uuid uint64, local, remote peer.ID) *fakeLink {
@@ -44,7 +45,13 @@ func newFakeLink(id int, uuid uint64, local, remote peer.ID) *fakeLink {
 }
 func (f *fakeLink) GetUUID() uint64                                 { return f.uuid }
 func (f *fakeLink) GetTransportUUID() uint64                        { return 99 }
-func (f *fakeLink) OpenStream(stream.OpenOpts) (stream.Stream, error) { return nil, io.EOF }
+func (f *fakeLink) OpenStream(stream.OpenOpts) (stream.Stream, error) {
+	f.mtx.Lock()
+	f.opens++
+	f.mtx.Unlock()
+	return nil, io.EOF
+}
+func (f *fakeLink) openCount() int { f.mtx.Lock(); defer f.mtx.Unlock(); return f.opens }
 func (f *fakeLink) AcceptStream() (stream.Stream, stream.OpenOpts, error) {
 	<-f.closeCh
 	return nil, stream.OpenOpts{}, io.EOF
@@ -274,6 +281,7 @@ func (e *engine) runHistory(ops []op, gen string) {
 	model := e.m.Query(opline)
 	mLive := lib.KV(model, "live")
 	mClosed := lib.KV(model, "closed")
+
 	spec := lib.KV(model, "spec")
 
 	// wait for quiescence: tables, closes and directive values as the model predicts (or timeout)
@@ -312,37 +320,7 @@ func (e *engine) runHistory(ops []op, gen string) {
 	impl := fmt.Sprintf("live=%s bypeer=%s closed=%s", live, bp, cl)
 	modelCmp := fmt.Sprintf("live=%s bypeer=%s closed=%s", mLive, lib.KV(model, "bypeer"), mClosed)
 	mon := stuck
-	// model-independent monitor: replay the history against the plain statement of the property
-	wantLive := map[int]bool{}
-	uu := map[int]uint64{}
-	running := false
-	everLost := map[int]bool{}
-	for _, o := range ops {
-		switch o.kind {
-		case "start":
-			running = true
-		case "shutdown":
-			running = false
-			wantLive = map[int]bool{}
-		case "est":
-			if !running || o.rem == 1 {
-				continue
-			}
-			if wantLive[o.id] {
-				continue
-			}
-			for id := range wantLive {
-				if uu[id] == o.uuid {
-					delete(wantLive, id)
-				}
-			}
-			wantLive[o.id] = true
-			uu[o.id] = o.uuid
-		case "lost":
-			delete(wantLive, o.id)
-			everLost[o.id] = true
-		}
-	}
+	wantLive, everLost := replaySpec(ops)
 	key := "links.hist:" + gen
 	if mon == "" && live != idsOf(wantLive) {
 		mon = fmt.Sprintf("after history %s the controller reports links {%s} but the links established and not yet lost are {%s}", strings.Join(ss, ","), live, idsOf(wantLive))
@@ -389,9 +367,18 @@ func (e *engine) runHistory(ops []op, gen string) {
 					if ml.GetRemotePeer() == localID {
 						bad = "a link to the local peer itself was yielded"
 					}
+					// which link OBJECT does this value wrap? OpenMountedStream reaches the link's OpenStream
+					before := map[int]int{}
 					for id, l := range links {
-						if l.uuid == ml.GetLinkUUID() && l.remote == ml.GetRemotePeer() && live != "_" && strings.Contains(","+live+",", ","+strconv.Itoa(id)+",") {
+						before[id] = l.openCount()
+					}
+					_, _ = ml.OpenMountedStream(ctx, "verif/probe", stream.OpenOpts{})
+					for id, l := range links {
+						if l.openCount() != before[id] {
 							ids[id] = true
+							if !wantLive[id] {
+								bad = fmt.Sprintf("request for a link to peer %d still yields link %d although that link was lost/closed", ob.dst, id)
+							}
 						}
 					}
 				}
@@ -425,6 +412,43 @@ func (e *engine) runHistory(ops []op, gen string) {
 		ctrlCancel()
 		<-ctrlDone
 	}
+}
+
+
+// replaySpec replays a history against the plain statement of the property: the set of links
+// established and not yet lost (a newer link with the same uuid replaces the older one).
+func replaySpec(ops []op) (map[int]bool, map[int]bool) {
+	wantLive := map[int]bool{}
+	uu := map[int]uint64{}
+	running := false
+	everLost := map[int]bool{}
+	for _, o := range ops {
+		switch o.kind {
+		case "start":
+			running = true
+		case "shutdown":
+			running = false
+			wantLive = map[int]bool{}
+		case "est":
+			if !running || o.rem == 1 {
+				continue
+			}
+			if wantLive[o.id] {
+				continue
+			}
+			for id := range wantLive {
+				if uu[id] == o.uuid {
+					delete(wantLive, id)
+				}
+			}
+			wantLive[o.id] = true
+			uu[o.id] = o.uuid
+		case "lost":
+			delete(wantLive, o.id)
+			everLost[o.id] = true
+		}
+	}
+	return wantLive, everLost
 }
 
 func (e *engine) genHistory(mode int) ([]op, string) {
